@@ -65,7 +65,9 @@ BaseLevel(lay) ==
                 IN SumTo([j \in DOMAIN lay.disk[f] |-> 1 + CellsOfIdx(lay.disk[f][j]) * NF], posIn(f, b) - 1)
   IN [nfline |-> NF, cnt1 |-> nb, cnt2 |-> nb, hdrcnt |-> nb,
       boxlines |-> [b \in 1..nb |-> [k |-> "box", idx |-> b]],
-      fodlines |-> [b \in 1..nb |-> [k |-> "fod", file |-> lay.file[b], off |-> off(b)]],
+      \* early: the recorded position lies a few bytes BEFORE the FAB header, in bytes of the preceding payload that read as
+      \* text without a line end (zero-valued cells): the header line read from there still ends with the header
+      fodlines |-> [b \in 1..nb |-> [k |-> "fod", file |-> lay.file[b], off |-> off(b), early |-> FALSE]],
       bounds_ok |-> [b \in 1..nb |-> TRUE],
       files |-> [f \in Rng(lay.file) |-> units(f)], gone |-> {}]
 
@@ -110,6 +112,7 @@ ReadBoxOK(L, b) ==
   /\ LET u == L.files[fl.file]
          h == UnitAt(u, fl.off)
      IN /\ h.k = "H" /\ h.idx = L.boxlines[b].idx /\ h.nc = NF
+        /\ (fl.early => fl.off > 0 /\ UnitAt(u, fl.off - 1).k = "D")
         /\ fl.off + 1 + CellsOfIdx(h.idx) * NF <= Len(u)
         /\ \A i \in (fl.off + 1)..(fl.off + CellsOfIdx(h.idx) * NF) : u[i + 1].k = "D"
 ReadConsistent(P, lim) ==
@@ -158,7 +161,9 @@ ImplHeadersFileP(L, f, sortOffsets) ==
            \* start (bytes cut from an earlier header) the seek lands a few bytes inside the header line, whose tail still
            \* parses; displaced the other way it lands in the payload in front of the header: garbage
            r(b) == LET h == UnitAt(u, L.fodlines[b].off)
-                   IN IF h.k # "H" \/ Disp(u, L.fodlines[b].off) > 0 THEN "exception"
+                       fl == L.fodlines[b]
+                       okEarly == ~fl.early \/ (fl.off > 0 /\ UnitAt(u, fl.off - 1).k = "D")
+                   IN IF h.k # "H" \/ ~okEarly \/ Disp(u, L.fodlines[b].off) > 0 THEN "exception"
                       ELSE IF h.idx # L.boxlines[b].idx \/ h.nc # NF THEN "error" ELSE "ok"
            \* the first non-ok box in visiting order decides
            bad == {i \in DOMAIN bs : r(bs[i]) # "ok"}
